@@ -248,7 +248,7 @@ class _Expr(SymEval):
             return base[key]
         if isinstance(base, str):
             return base[self._index(n.slice)]
-        return super().e_Subscript(n)
+        return self._subscript(base, n)
 
     def e_Compare(self, n):
         left = self.eval(n.left)
@@ -456,6 +456,8 @@ class _Expr(SymEval):
                 kw = {k.arg: self.eval(k.value) for k in n.keywords if k.arg is not None}
                 res = _prog_call(getattr(base, f.attr), *args, **kw)
                 return list(res) if f.attr in ("items", "keys", "values") else res
+            self._receiver = base  # evaluated once: hand it to the generic method dispatch
+            return super().e_Call(n)
         if isinstance(f, ast.Name) and f.id in self.env and isinstance(self.env[f.id], type) and self.env[f.id] in (int, float, str, bool):
             args = [self.eval(a) for a in n.args]
             if any(isinstance(a, (Sym, Rec, np.ndarray)) for a in args):
